@@ -38,7 +38,7 @@ import itertools
 from typing import List
 
 from pydcop.utils.expressionfunction import ExpressionFunction
-from pydcop.utils.simple_repr import SimpleRepr, SimpleReprException
+from pydcop.utils.simple_repr import SimpleRepr, SimpleReprException, from_repr
 
 VariableName = str
 
@@ -431,6 +431,24 @@ class VariableWithCostDict(Variable):
             return self._costs[val]
         except KeyError:
             return 0.0
+
+    @classmethod
+    def _from_repr(cls, r):
+        args = {
+            k: from_repr(v)
+            for k, v in r.items()
+            if k not in ["__qualname__", "__module__"]
+        }
+        # json only supports strings as keys: when the repr went through json,
+        # map the keys of the costs back to the values of the domain.
+        domain = args["domain"]
+        values = list(domain.values if hasattr(domain, "values") else domain)
+        by_str = {str(v): v for v in values}
+        args["costs"] = {
+            (by_str[k] if k not in values and k in by_str else k): c
+            for k, c in args["costs"].items()
+        }
+        return cls(**args)
 
     def __str__(self):
         return "VariableWithCostDict({})".format(self.name)
